@@ -19,8 +19,9 @@ fn coq_te(s: &TrainState) -> String {
     format!("(Build_TrainEnergy {} {} {} {})", cf(s.pwr_whl_out.value), cf(s.energy_whl_out.value),
         cf(s.energy_whl_out_pos.value), cf(s.energy_whl_out_neg.value))
 }
-fn fuel_sum(c: &Consist) -> f64 { c.loco_vec.iter().map(|l| match &l.loco_type { PowertrainType::ConventionalLoco(x) => x.fc.state.energy_fuel.value, _ => 0.0 }).sum() }
-fn chem_sum(c: &Consist) -> f64 { c.loco_vec.iter().map(|l| match &l.loco_type { PowertrainType::BatteryElectricLoco(x) => x.res.state.energy_out_chemical.value, _ => 0.0 }).sum() }
+fn fuel_sum(c: &Consist) -> f64 { c.loco_vec.iter().map(|l| match &l.loco_type { PowertrainType::ConventionalLoco(x) => x.fc.state.energy_fuel.value, PowertrainType::HybridLoco(x) => x.fc.state.energy_fuel.value, _ => 0.0 }).sum() }
+fn chem_sum(c: &Consist) -> f64 { c.loco_vec.iter().map(|l| match &l.loco_type { PowertrainType::BatteryElectricLoco(x) => x.res.state.energy_out_chemical.value, PowertrainType::HybridLoco(x) => x.res.state.energy_out_chemical.value, _ => 0.0 }).sum() }
+fn has_hybrid(c: &Consist) -> bool { c.loco_vec.iter().any(|l| matches!(l.loco_type, PowertrainType::HybridLoco(_))) }
 
 pub fn oracle_levels(ts: &TrainState, c: &Consist, f: &mut Vec<String>) {
     let p = consist_rated(c); let e = p * 1000.0;
@@ -51,15 +52,30 @@ pub fn run(seed: u64, n: usize, sink: &mut Sink) {
     let mut made = 0usize; let mut t = 0usize;
     while made < n {
         let use_default = t % 5 == 4;
+        // every seventh run (set-speed) carries a hybrid locomotive: outside the Coq model, oracle only
+        let with_hybrid = t % 14 == 6;
         let mut con = if use_default { Consist::default() } else { rand_consist(&mut r) };
+        if with_hybrid { con.loco_vec.push(Locomotive::default_hybrid_electric_loco()); }
         let _ = altrios_core::traits::SerdeAPI::init(&mut con);
         let kind = if t % 2 == 0 { "set_speed" } else { "speed_limit" };
         let days = if r.chance(0.5) { Some(r.int(1, 30) as i32) } else { None };
+        let mut irregular = false;
         let mut sim = if t % 2 == 0 {
             let mut s = SetSpeedTrainSim::default(); s.loco_con = con; s.set_save_interval(Some(1));
+            // irregular time stamps (the shipped trace is uniform 1 s): the speeds stay the trace's
+            if t % 4 != 0 {
+                let mut tt = s.speed_trace.time[0].value;
+                for i in 1..s.speed_trace.time.len() {
+                    let dt = *r.pick(&[0.25, 0.5, 1.0, 1.0, 1.5, 2.0, 3.0]);
+                    tt += dt; s.speed_trace.time[i] = altrios_core::uc::S * tt;
+                }
+                irregular = true;
+            }
             Sim { set: Some(s), lim: None }
         } else {
-            let v = SpeedLimitTrainSim::valid();
+            let mut v = SpeedLimitTrainSim::valid();
+            // tonne-kilometres need a non-zero freight mass (it is zero in valid()); it enters no dynamics
+            v.state.mass_freight = altrios_core::uc::KG * r.lrange(1e5, 1e7);
             let mut s = SpeedLimitTrainSim::new(v.train_id.clone(), &v.origs, &v.dests, con, v.state, v.train_res.clone(), v.path_tpc.clone(), v.fric_brake.clone(), Some(1), days, None);
             s.braking_points = v.braking_points.clone();
             Sim { set: None, lim: Some(s) }
@@ -73,7 +89,7 @@ pub fn run(seed: u64, n: usize, sink: &mut Sink) {
             let res = catch(std::panic::AssertUnwindSafe(|| sim.step()));
             let (ts, cpost) = (*sim.state(), sim.con().clone());
             let (p, dt) = (ts.pwr_whl_out.value, ts.dt.value);
-            let mut tags = vec![format!("sim:{}", kind), format!("units:{}", pre_con.loco_vec.len()),
+            let mut tags = vec![format!("sim:{}", kind), format!("dt:{}", if irregular { "irregular" } else { "uniform" }), format!("units:{}", pre_con.loco_vec.len()),
                 format!("sign:{}", if p > 0.0 { "traction" } else if p < 0.0 { "braking" } else { "zero" })];
             let mut fails = vec![]; let mut known = vec![];
             let mut in_domain = true;
@@ -89,7 +105,7 @@ pub fn run(seed: u64, n: usize, sink: &mut Sink) {
                     let e = consist_rated(&cpost) * 100.0;
                     o.f("train.pwr_whl_out", ts.pwr_whl_out.value, e / 100.0); o.f("train.energy_whl_out", ts.energy_whl_out.value, e);
                     o.f("train.energy_whl_out_pos", ts.energy_whl_out_pos.value, e); o.f("train.energy_whl_out_neg", ts.energy_whl_out_neg.value, e);
-                    o.extend(outs_consist(&cpost));
+                    if !has_hybrid(&cpost) { o.extend(outs_consist(&cpost)); }
                     Outcome::Ok(o)
                 }
                 Ok(Err(e)) => { rejected = true; let (c, m) = consist_err_code(&e); tags.push(format!("result:err{}", c)); Outcome::Err(c, m) }
@@ -97,7 +113,7 @@ pub fn run(seed: u64, n: usize, sink: &mut Sink) {
             };
             // when the train-level step fails before/after the consist is involved the bookkeeping model
             // has nothing to say: only accepted steps are lock-stepped
-            let coq = if rejected { String::new() } else { format!("x_train_consist_step {} {} {} {}", coq_te(&pre_ts), coq_consist(&pre_con), cf(p), cf(dt)) };
+            let coq = if rejected || has_hybrid(&pre_con) { String::new() } else { format!("x_train_consist_step {} {} {} {}", coq_te(&pre_ts), coq_consist(&pre_con), cf(p), cf(dt)) };
             let _ = &mut known;
             sink.put(Case { id: format!("{}/{}/{}", kind, t, i), kind: format!("{}_step", kind), coq, outcome, tags,
                 input: json!({"consist_yaml": serde_yaml::to_string(&pre_con).unwrap_or_default(), "sim": kind, "step": i, "default_consist": use_default}),
@@ -147,7 +163,7 @@ pub fn run(seed: u64, n: usize, sink: &mut Sink) {
             let dcoq = if sim.lim.is_some() { copt(days.map(|d| cf(d as f64))) } else { "None".into() };
             let ann = sim.lim.is_some();
             sink.put(Case { id: format!("{}/{}/trip", kind, t), kind: "trip_outputs".into(),
-                coq: format!("x_trip_outputs {} {} {}", coq_consist(&con), cb(ann), dcoq),
+                coq: if has_hybrid(&con) { String::new() } else { format!("x_trip_outputs {} {} {}", coq_consist(&con), cb(ann), dcoq) },
                 outcome: Outcome::Ok(o), tags: vec![format!("sim:{}", kind), format!("days:{}", days.map(|d| d.to_string()).unwrap_or("none".into()))],
                 input: json!({"consist_yaml": serde_yaml::to_string(&con).unwrap_or_default(), "days": days}),
                 oracle_fail: fails, known: vec![], in_domain: true });
